@@ -12,7 +12,7 @@ from ..run import hyp_search, mix
 
 RULE = ('words of each content model\'s language: ALL words of length <= L (quick L=4, thorough L=6 capped per type), '
         'the 2-switch cover of every DFA, and Hypothesis-drawn DFA walks up to length 40 (loops included), each fed '
-        'left to right with add_child on a fresh checked element (children are unchecked stubs; afterwards a child with a same-named later sibling is exchanged for an equal one by replace_child and must keep its place) and, second path, '
+        'left to right with add_child on a fresh checked element (children are unchecked stubs; afterwards a child with a same-named later sibling is exchanged for an equal one by replace_child and must keep its place; then all children are removed and the same word is supplied again: it must be accepted and kept in order as on an empty element) and, second path, '
         'written as XML and read with parse_musicxml. Non-trivial = length>=2 and the DFA path takes a transition on a '
         'cycle or leaves a state with >1 continuation, or the empty word where the schema allows it; distinct by '
         '(type, element, word, path).')
@@ -36,7 +36,7 @@ def _nontrivial(dfa, word, cyc):
     return False
 
 
-def check_word(tkey, el, word, path='api'):
+def check_word(tkey, el, word, path='api', refill=True):
     """returns failure dict or None"""
     inp = {'element': el, 'word': list(word), 'path': path}
 
@@ -88,6 +88,21 @@ def check_word(tkey, el, word, path='api'):
                 return F('replacement-by-equal-child-moves-it', {'index': i, 'ordered': [
                     'new' if c is new else c.name for c in oc], 'string': r.verdict()[0]})
             break
+    # an element that has been filled and emptied again is an empty element: the same word is accepted again
+    if refill and len(word) >= 2:
+        for c in reversed(list(kids)):
+            if not call(e.remove, c).ok:
+                return None          # (a failing removal is C10 / C11's subject)
+        kids2 = []
+        for i, a in enumerate(word):
+            c = stub(a)
+            r = call(e.add_child, c)
+            if not r.ok:
+                return F('rejected-at-add-after-emptying', '%s at index %d (%s)' % (r.etype, i, a), r.site)
+            kids2.append(c)
+        oc = call(e.get_children, True).value or []
+        if len(oc) != len(kids2) or any(x is not y for x, y in zip(oc, kids2)):
+            return F('reordered-after-emptying', [c.name for c in oc])
     return None
 
 
